@@ -46,7 +46,7 @@ def gen_cases(ctx):
     for i in range(n):
         kind = ["air", "ref", "ref", "adversarial", "random", "corrupt"][i % 6]
         svc = rng.choice(["battery", "temperature", "url", "raw", "none", "two"])
-        yield {"kind": kind, "svc": svc, "chan": i % 3,
+        yield {"kind": kind, "svc": svc, "chan": (i // 6 + i) % 3,
                # str names, one-character names, byte names that are not valid UTF-8 (kept as bytes
                # by the receiver), UTF-8 multi-byte names; short-name (0x08) and complete-name (0x09) types
                "name": rng.choice([None, None, "n", "nRF24", "abcdefgh", {"hex": "80"}, {"hex": "6e52ff34"},
@@ -73,10 +73,15 @@ def gen_cases(ctx):
         yield {"kind": "batt_sweep", "batt": b, "chan": b % 3, "seed": b}
 
 
-def mk_rx(rig, F, chan):
+def mk_rx(rig, F, chan, boundary=False):
     rr = rig.radio("rx")
     rx = rig.driver(rr, cls=F.FakeBLE)
     rx.channel = CH[chan]
+    if boundary:
+        # the channel was chosen by assignment; then a `with` boundary (as when another object
+        # used the radio in between) - the object must come back on the channel it was given
+        rx.__exit__(None, None, None)
+        rx.__enter__()
     rx.listen = True
     return rr, rx
 
@@ -101,7 +106,7 @@ def run_case(ctx, case):
         kind = case["kind"]
         if kind in ("temp_sweep", "batt_sweep"):
             return run_sweep(ctx, case, rig, F, rng)
-        rr, rx = mk_rx(rig, F, case["chan"])
+        rr, rx = mk_rx(rig, F, case["chan"], case.get("seed", 0) % 3 == 0)
         node = rig.node
         node.idle(400000)
         chidx = 37 + case["chan"]
@@ -119,17 +124,26 @@ def run_case(ctx, case):
             rt = rig.radio("tx")
             tx = rig.driver(rt, cls=F.FakeBLE)
             tx.channel = CH[case["chan"]]
+            if case["seed"] % 4 == 1:
+                tx.__exit__(None, None, None)
+                tx.__enter__()
             tx.listen = False
             tx.mac = mac
             nq = case["queue"]
             for j in range(nq):
                 name = name_expected(case["name"])
-                tx.name = name_value(case["name"])
-                tx.pa_level = case["pa_level"]
-                try:
-                    tx.show_pa_level = case["pa"]
-                except ValueError:
-                    pass
+                if j == 0:  # configured once per session
+                    tx.name = name_value(case["name"])
+                # a beacon that changes its power between two advertisements of one session
+                pa_j = [-18, -12, -6, 0][([-18, -12, -6, 0].index(case["pa_level"]) + j) % 4]
+                if j == 0:
+                    tx.pa_level = pa_j
+                    try:
+                        tx.show_pa_level = case["pa"]
+                    except ValueError:
+                        pass
+                else:
+                    tx.pa_level = pa_j
                 svcs, descr = build_lib_services(F, case, rng, j, tx.len_available())
                 try:
                     tx.advertise([F.chunk(s.buffer) if not isinstance(s, bytes) else F.chunk(s, 0xFF) for s in svcs])
@@ -137,7 +151,7 @@ def run_case(ctx, case):
                     ctx.count("advertise_too_long_skipped")
                     continue
                 node.idle(600000)
-                expected.append((mac, name, case["pa_level"] if tx.show_pa_level else None, descr))
+                expected.append((mac, name, pa_j if tx.show_pa_level else None, descr))
         elif kind == "ref":
             for j in range(case["queue"]):
                 ads = [(0x01, b"\x05")]
